@@ -38,6 +38,8 @@ def run(ctx):
                 key = f"{k}:{p['cls']}.{p['field']}"
             elif k in ("set-meta-accepted", "add-pretasks-accepted", "not-sealed"):
                 key = f"{k}:{p['cls']}"
+            elif k == "frozen-changed-through-copy":
+                key = f"{k}:{p['op']}:{'+'.join(p['part'])}"
             else:
                 key = k
             res.violation(f"{key}:{it['route']}", f"after {it['route']}: {p} on {json.dumps(it['G'])[:600]}", {"G": it["G"], "route": it["route"], "problem": p})
@@ -46,7 +48,7 @@ def run(ctx):
         "distinct_nontrivial": len(sigs),
         "rule": "every description within (N,k) x {seal(), DRY_RUN submit, DRY_RUN submit of a task first instantiated in a directory context of its own (values of configurations sealed earlier - upstream tasks - must not move), each also after a first sealing attempt that aborts half-way (instance() without path context)} (structural deviations: sharing, cycles, lists/dicts of configurations, task outputs, pre/init tasks, "
                 "meta flags; plus scalar deviations at depth 1) x {seal(), DRY_RUN submit} x every reachable node x every mutation attempt (assign each "
-                "parameter a type-correct new value, set_meta True/False, add_pretasks), identifiers of all nodes and the job directory re-read after "
+                "parameter a type-correct new value, set_meta True/False, add_pretasks; then the same operations on a copyconfig() of every frozen node, after each of which the values, pre-tasks, init tasks and meta flag of the frozen original must be what they were), identifiers of all nodes and the job directory re-read after "
                 "every attempt; evaluations = mutation attempts; distinct_nontrivial = distinct (signature, route)",
         "samples": clip_samples([descs[5], descs[len(descs) // 2]]),
         "exhaustive": not capped, "descriptions": len(descs),
